@@ -1,31 +1,33 @@
 #!/bin/bash
-# Runs every property's check against each seeded change under /verif/seeded (or the ids named),
-# applying it to /repo and undoing it straight afterwards. Results -> /verif/seeded/RESULTS.tsv
+# Runs every property's check against each seeded change under "$VERIF"/seeded (or the ids named),
+# applying it to /repo and undoing it straight afterwards. Results -> "$VERIF"/seeded/RESULTS.tsv
 set -u
 TIER=quick
 if [ "${1:-}" = "-t" ]; then TIER=$2; shift 2; fi
-cd /verif
-if [ -n "$(git -C /repo status --porcelain)" ]; then echo "/repo not clean"; exit 2; fi
-ids=("$@"); [ ${#ids[@]} -gt 0 ] || ids=($(ls /verif/seeded | grep '^S-'))
-out=/verif/seeded/RESULTS.tsv
+VERIF=$(cd "$(dirname "$0")/.." && pwd)
+REPO=${SWEEP_REPO:-/repo}
+cd "$VERIF"
+if [ -n "$(git -C "$REPO" status --porcelain)" ]; then echo "$REPO not clean"; exit 2; fi
+ids=("$@"); [ ${#ids[@]} -gt 0 ] || ids=($(ls "$VERIF"/seeded | grep '^S-'))
+out="$VERIF"/seeded/RESULTS.tsv
 [ -f "$out" ] || printf "seeded\ttier\tC02\tC04\tC05\tC13\tC14\tC17\n" > "$out"
 for id in "${ids[@]}"; do
-  p=/verif/seeded/$id/patch.diff
-  if ! git -C /repo apply "$p"; then echo "$id: patch does not apply"; continue; fi
+  p="$VERIF"/seeded/$id/patch.diff
+  if ! git -C "$REPO" apply "$p"; then echo "$id: patch does not apply"; continue; fi
   row="$id\t$TIER"
   for prop in C02 C04 C05 C13 C14 C17; do
     o=$(./check $prop $TIER 2>&1); rc=$?
     if [ $rc -eq 1 ]; then
       cls=$(echo "$o" | sed -n 's/^violation detail: .* class=\([^ ]*\) run=\([0-9]*\) ops=\([0-9]*\).*/\1@\2#\3/p' | head -1)
       row="$row\tV:$cls"
-      echo "$o" | grep '^violation detail' | head -1 | cut -c1-400 > /verif/seeded/$id/detected_by_$prop.txt
+      echo "$o" | grep '^violation detail' | head -1 | cut -c1-400 > "$VERIF"/seeded/$id/detected_by_$prop.txt
     elif [ $rc -eq 0 ]; then row="$row\t-"
     else row="$row\tE$rc"; echo "$o" | tail -5
     fi
   done
-  git -C /repo checkout -- .
+  git -C "$REPO" checkout -- .
   awk -F'\t' -v n="$id" -v t="$TIER" '!($1==n && $2==t)' "$out" > "$out.tmp"; mv "$out.tmp" "$out"
   printf "$row\n" | tee -a "$out"
 done
-rm -f /verif/replays/*.json
-git -C /repo status --porcelain
+rm -f "$VERIF"/replays/*.json
+git -C "$REPO" status --porcelain
